@@ -135,8 +135,9 @@ def run_driver(ctx: Ctx) -> RuleResult:
         res.finding(f, dels[0], 'reduction arguments: %s' % why, construct='d2:args')
     def top_of(e, stack) -> bool:
         return isinstance(e, ast.Subscript) and canon(e.value) == stack and norm(e.slice) == '-1'
+    tpar = f.positional_names()[0]
     gotos = [s for s in ast.walk(loop) if isinstance(s, ast.Subscript) and isinstance(s.ctx, ast.Load) and isinstance(s.value, ast.Subscript)
-             and top_of(s.value.slice, ss)]
+             and top_of(s.value.slice, ss) and norm(s.slice) != tpar + '.type']
     ok = len(gotos) == 1
     why = 'no lookup in the row of the new top of the state stack'
     if ok:
@@ -156,7 +157,21 @@ def run_driver(ctx: Ctx) -> RuleResult:
         res.finding(f, gotos[0] if gotos else loop, 'goto after a reduction: %s' % why, construct='d2:goto')
     # d3: returns
     rets = [r for r in ast.walk(loop) if isinstance(r, ast.Return)]
-    shift_rets = [r for r in rets if any(bool_relation(t, _pe('action is Shift')) == 'same' and pol for t, pol in path_conditions(r))]
+    # names: the action is what the lookup under token.type is unpacked into; is_end the second parameter; the end state an attribute
+    # `.end_state` (or a local holding it)
+    pnames = f.positional_names()
+    ISEND = pnames[1] if len(pnames) > 1 else 'is_end'
+    act_names = set()
+    for a_ in ast.walk(loop):
+        if isinstance(a_, ast.Assign) and isinstance(a_.targets[0], ast.Tuple) and len(a_.targets[0].elts) == 2 and isinstance(a_.value, ast.Subscript) \
+                and norm(a_.value.slice) == pnames[0] + '.type':
+            act_names.add(norm(a_.targets[0].elts[0]))
+    end_names = {a_.targets[0].id for a_ in f.body_nodes() if isinstance(a_, ast.Assign) and len(a_.targets) == 1 and isinstance(a_.targets[0], ast.Name)
+                 and isinstance(a_.value, ast.Attribute) and a_.value.attr == 'end_state'}
+
+    def is_shift_test(t) -> bool:
+        return isinstance(t, ast.Compare) and len(t.ops) == 1 and isinstance(t.ops[0], ast.Is) and norm(t.left) in act_names and norm(t.comparators[0]) == 'Shift'
+    shift_rets = [r for r in rets if any(is_shift_test(t) and pol for t, pol in path_conditions(r))]
     other = [r for r in rets if r not in shift_rets]
     ok = len(shift_rets) >= 1 and all(r.value is None for r in shift_rets)
     res.ob(site, 'd3: a shift ends the call', ok)
@@ -166,9 +181,11 @@ def run_driver(ctx: Ctx) -> RuleResult:
     why = ''
     for r in other:
         conds = path_conditions(r)
-        has_end = any(norm(t) == 'is_end' and pol for t, pol in conds) or any(isinstance(t, ast.BoolOp) and isinstance(t.op, ast.And) and pol and
-                                                                             any(norm(v) == 'is_end' for v in t.values) for t, pol in conds)
-        top_end = any(pol and 'end_state' in norm(t) and any(top_of(x, ss) for x in ast.walk(t)) for t, pol in conds)
+        has_end = any(norm(t) == ISEND and pol for t, pol in conds) or any(isinstance(t, ast.BoolOp) and isinstance(t.op, ast.And) and pol and
+                                                                          any(norm(v) == ISEND for v in t.values) for t, pol in conds)
+        top_end = any(pol and any(top_of(x, ss) for x in ast.walk(t)) and any((isinstance(x, ast.Attribute) and x.attr == 'end_state') or
+                                                                                (isinstance(x, ast.Name) and x.id in end_names) for x in ast.walk(t))
+                      for t, pol in conds)
         if not (has_end and top_end):
             ok = False
             why = 'a return after a reduction under %s' % [('' if p_ else 'not ') + norm(t) for t, p_ in conds][-2:]
@@ -219,61 +236,137 @@ def run_table(ctx: Ctx) -> RuleResult:
     res.ob(site, 't1: the shift actions of a state are all its LR(0) transitions', ok)
     if not ok:
         res.finding(f, acts[0] if acts else f.node, 'the shift actions are no longer exactly the transitions of the item set', construct='t1:shifts')
-    # t2: strict priority
+    # t2: strict priority.  Recognised spellings: `p.sort(..., reverse=True)` / `p = sorted(..., reverse=True)`; the best two as
+    # `best, second = p[:2]`, as `p[0]` / `p[1]` (directly or through locals); the strict test in either orientation; the outcome acted on
+    # at once (`rules = {best[1]}` / record + continue) or through a local that is None on a tie (`if winner is None: record; continue`).
     sorts = [c for c in f.body_nodes() if isinstance(c, ast.Call) and ((isinstance(c.func, ast.Attribute) and c.func.attr == 'sort') or norm(c.func) == 'sorted')]
+    if not sorts:
+        raise AnalysisError('R-LALR-TABLE: compute_lalr1_states: no sort of the competing rules found (priority resolution not recognised)')
     desc = [c for c in sorts if any(k.arg == 'reverse' and isinstance(k.value, ast.Constant) and k.value.value is True for k in c.keywords)]
-    ok = len(desc) == 1
-    why = 'the competing rules are not sorted by descending priority'
-    wins = []
+    wins: List[ast.If] = []
+    rr_names: Set[str] = set()
+    ok = len(desc) == 1 and len(sorts) == 1
+    why = 'the competing rules are not sorted by descending priority (reverse=True)'
     if ok:
-        # best, second = p[:2]
-        unp = [a for a in f.body_nodes() if isinstance(a, ast.Assign) and isinstance(a.targets[0], ast.Tuple) and len(a.targets[0].elts) == 2
-               and isinstance(a.value, ast.Subscript) and isinstance(a.value.slice, ast.Slice) and a.value.slice.lower is None
-               and a.value.slice.upper is not None and norm(a.value.slice.upper) == '2']
-        ok = len(unp) == 1
-        why = 'the best two candidates are not taken from the front of the sorted list'
-        if ok:
-            b1, b2 = [norm(e) for e in unp[0].targets[0].elts]
-            def _rel(t_):
-                """'same' / 'negated' relation of a test to  best[0] > second[0]"""
-                neg_ = False
+        srt = desc[0]
+        if isinstance(srt.func, ast.Attribute):
+            plist = norm(srt.func.value)
+        else:
+            asg = parent(srt)
+            if not (isinstance(asg, ast.Assign) and len(asg.targets) == 1):
+                raise AnalysisError('R-LALR-TABLE: compute_lalr1_states: the sorted list is not kept in a local')
+            plist = norm(asg.targets[0])
+        # the sort key is the priority (first component of the pairs)
+        keyk = next((k.value for k in srt.keywords if k.arg == 'key'), None)
+        key_ok = isinstance(keyk, ast.Lambda) and norm(keyk.body) == '%s[0]' % keyk.args.args[0].arg
+        elem: Dict[str, int] = {'%s[0]' % plist: 0, '%s[1]' % plist: 1}
+        import re as _re
+
+        def const_index(e) -> Optional[int]:
+            m_ = _re.fullmatch(_re.escape(plist) + r'\[(-?\d+)\]', norm(e))
+            return int(m_.group(1)) if m_ else None
+        for a_ in f.body_nodes():
+            if isinstance(a_, ast.Assign) and len(a_.targets) == 1:
+                t0 = a_.targets[0]
+                if isinstance(t0, ast.Tuple) and len(t0.elts) == 2 and isinstance(a_.value, ast.Subscript) and norm(a_.value.value) == plist \
+                        and isinstance(a_.value.slice, ast.Slice) and a_.value.slice.lower is None and a_.value.slice.upper is not None and norm(a_.value.slice.upper) == '2':
+                    elem[norm(t0.elts[0])] = 0
+                    elem[norm(t0.elts[1])] = 1
+                elif isinstance(t0, ast.Name) and const_index(a_.value) is not None:
+                    elem[t0.id] = const_index(a_.value)
+                elif isinstance(t0, ast.Tuple) and isinstance(a_.value, ast.Tuple) and len(t0.elts) == len(a_.value.elts):
+                    for te, ve in zip(t0.elts, a_.value.elts):
+                        if isinstance(te, ast.Name) and const_index(ve) is not None:
+                            elem[te.id] = const_index(ve)
+
+        def prio_of(e) -> Optional[int]:
+            """0 / 1 when e is the priority component of the best / second best"""
+            if isinstance(e, ast.Subscript) and norm(e.slice) == '0' and norm(e.value) in elem:
+                return elem[norm(e.value)]
+            if isinstance(e, ast.Subscript) and norm(e.slice) == '0' and const_index(e.value) is not None:
+                return const_index(e.value)
+            return None
+
+        def _rel(t_):
+            neg_ = False
+            while isinstance(t_, ast.UnaryOp) and isinstance(t_.op, ast.Not):
+                t_, neg_ = t_.operand, not neg_
+            # `(rule if C else None) is None` (a looked-through helper that answers None on a tie) reads `not C`
+            if isinstance(t_, ast.Compare) and len(t_.ops) == 1 and isinstance(t_.ops[0], (ast.Is, ast.IsNot)) and norm(t_.comparators[0]) == 'None' \
+                    and isinstance(t_.left, ast.IfExp) and (norm(t_.left.orelse) == 'None') != (norm(t_.left.body) == 'None'):
+                inner_neg = norm(t_.left.body) == 'None'
+                if isinstance(t_.ops[0], ast.Is):
+                    neg_ = not neg_
+                if inner_neg:
+                    neg_ = not neg_
+                t_ = t_.left.test
                 while isinstance(t_, ast.UnaryOp) and isinstance(t_.op, ast.Not):
                     t_, neg_ = t_.operand, not neg_
-                al = as_less(t_)
-                if al is None:
-                    return None
-                lo_, op_, hi_ = norm(al[0]), al[1], norm(al[2])
-                if (lo_, op_, hi_) == ('%s[0]' % b2, '<', '%s[0]' % b1):
-                    return 'negated' if neg_ else 'same'
-                if (lo_, op_, hi_) == ('%s[0]' % b1, '<=', '%s[0]' % b2):
-                    return 'same' if neg_ else 'negated'
+            al = as_less(t_)
+            if al is None:
                 return None
-            wins = [i_ for i_ in f.body_nodes() if isinstance(i_, ast.If) and _rel(i_.test) is not None]
-            ok = len(wins) == 1
-            why = 'the winner is not decided by `%s[0] > %s[0]` (strictly greater priority)' % (b1, b2)
-            if ok:
-                w = wins[0]
-                neg = _rel(w.test) == 'negated'
-                win_arm, lose_arm = (w.orelse, w.body) if neg else (w.body, w.orelse)
-                ok = any(isinstance(s_, ast.Assign) and ('%s[1]' % b1) in norm(s_.value) for s_ in win_arm) and \
-                    any(isinstance(c, ast.Call) and isinstance(c.func, ast.Attribute) and c.func.attr == 'append' for s_ in lose_arm for c in ast.walk(s_)) and \
-                    any(isinstance(s_, ast.Continue) for s_ in lose_arm)
-                why = 'without a strict winner the conflict must be recorded and the lookahead skipped'
-            # missing priority counts as 0
-            if ok:
-                prios = [n for n in f.body_nodes() if isinstance(n, ast.BoolOp) and isinstance(n.op, ast.Or) and norm(n.values[0]).endswith('.options.priority')]
-                ok = len(prios) == 1 and norm(prios[0].values[1]) == '0'
-                why = 'a rule without priority does not count as priority 0'
+            lo_, op_, hi_ = prio_of(al[0]), al[1], prio_of(al[2])
+            if (lo_, op_, hi_) == (1, '<', 0):          # second < best
+                return 'negated' if neg_ else 'same'
+            if (lo_, op_, hi_) == (0, '<=', 1):         # best <= second
+                return 'same' if neg_ else 'negated'
+            if lo_ is not None and hi_ is not None:
+                return 'other:%s' % norm(t_)
+            return None
+        cands = [i_ for i_ in f.body_nodes() if isinstance(i_, ast.If) and _rel(i_.test) is not None]
+        if not cands:
+            cmp_any = [c for c in f.body_nodes() if isinstance(c, ast.Compare) and len(c.ops) == 1 and any(prio_of(x) is not None for x in (c.left, c.comparators[0]))]
+            if not cmp_any:
+                raise AnalysisError('R-LALR-TABLE: compute_lalr1_states: cannot find the comparison of the two best priorities')
+        wins = [i_ for i_ in cands if _rel(i_.test) in ('same', 'negated')]
+        ok = key_ok and len(wins) == 1 and len(cands) == 1
+        why = 'the winner is not decided by "priority of the best > priority of the second best" on a list sorted by priority (%s)' % (
+            [str(_rel(i_.test)) for i_ in cands] or 'key=%s' % (norm(keyk) if keyk is not None else None))
+        if ok:
+            w = wins[0]
+            neg = _rel(w.test) == 'negated'
+            win_arm, lose_arm = (w.orelse, w.body) if neg else (w.body, w.orelse)
+            if not win_arm and lose_arm and isinstance(lose_arm[-1], (ast.Continue, ast.Return, ast.Raise, ast.Break)):
+                blk = parent(w)
+                for fld in ('body', 'orelse'):
+                    seq_ = getattr(blk, fld, None)
+                    if isinstance(seq_, list) and w in seq_:
+                        win_arm = seq_[seq_.index(w) + 1:]
+            best_rule = {k + '[1]' for k, v in elem.items() if v == 0}
+
+            def records(stmts):
+                return [c for s_ in stmts for c in ast.walk(s_) if isinstance(c, ast.Call) and isinstance(c.func, ast.Attribute) and c.func.attr == 'append']
+            win_asg = [s_ for s_ in win_arm if isinstance(s_, ast.Assign) and any(norm(x) in best_rule for x in ast.walk(s_.value))]
+            direct = bool(win_asg) and bool(records(lose_arm)) and any(isinstance(s_, ast.Continue) for s_ in lose_arm)
+            via_none = False
+            if win_asg and not direct:
+                wv = norm(win_asg[0].targets[0])
+                none_in_lose = any(isinstance(s_, ast.Assign) and norm(s_.targets[0]) == wv and norm(s_.value) == 'None' for s_ in lose_arm)
+                tests_none = [i_ for i_ in f.body_nodes() if isinstance(i_, ast.If) and bool_relation(i_.test, _pe('%s is None' % wv)) in ('same', 'negated')]
+                if none_in_lose and len(tests_none) == 1:
+                    tn = tests_none[0]
+                    arm = tn.body if bool_relation(tn.test, _pe('%s is None' % wv)) == 'same' else tn.orelse
+                    via_none = bool(records(arm)) and any(isinstance(s_, ast.Continue) for s_ in arm)
+                    if via_none:
+                        rr_names |= {norm(c.func.value) for c in records(arm)}
+            ok = direct or via_none
+            if direct:
+                rr_names |= {norm(c.func.value) for c in records(lose_arm)}
+            why = 'with a strict winner its rule must be taken, without one the conflict must be recorded and the lookahead skipped'
+        if ok:
+            prios = [n for n in f.body_nodes() if isinstance(n, ast.BoolOp) and isinstance(n.op, ast.Or) and norm(n.values[0]).endswith('.options.priority')]
+            ok = len(prios) == 1 and norm(prios[0].values[1]) == '0'
+            why = 'a rule without priority does not count as priority 0'
     res.ob(site, 't2: competing reductions are resolved only by a strictly greater priority (descending sort, best two, missing = 0)', ok)
     if not ok:
-        res.finding(f, wins[0] if wins else (desc[0] if desc else f.node), 'reduce/reduce resolution changed (%s): a tie must be a conflict, the higher '
+        res.finding(f, wins[0] if wins else (desc[0] if desc else sorts[0]), 'reduce/reduce resolution changed (%s): a tie must be a conflict, the higher '
                     'priority must win' % why, construct='t2:priority')
     # t3: conflicts raise
-    rr = [c.func.value for s_ in (wins[0].body + wins[0].orelse if wins else []) for c in ast.walk(s_)
-          if isinstance(c, ast.Call) and isinstance(c.func, ast.Attribute) and c.func.attr == 'append']
     ok = False
-    if rr:
-        rrn = norm(rr[0])
+    if not rr_names:
+        rr_names = {norm(a_.targets[0]) for a_ in f.node.body if isinstance(a_, ast.Assign) and isinstance(a_.value, ast.List) and not a_.value.elts
+                    and 'reduce' in norm(a_.targets[0])}
+    for rrn in rr_names:
         for i_ in f.node.body:
             if isinstance(i_, ast.If) and norm(i_.test) == rrn and any(isinstance(x, ast.Raise) and 'GrammarError' in norm(x) for x in ast.walk(i_)):
                 ok = True
@@ -338,40 +431,70 @@ def _relations(repo: Repo, res: RuleResult):
     f = repo.func(LA + 'LALR_Analyzer.compute_includes_lookback')
     site = '%s %s' % (f.loc(), f.qual)
     sn = f.self_name() or 'self'
-    # t6: the nullable-suffix test
-    nul = [c for c in f.body_nodes() if isinstance(c, ast.Compare) and len(c.ops) == 1 and isinstance(c.ops[0], (ast.In, ast.NotIn))
-           and norm(c.comparators[0]) == '%s.NULLABLE' % sn]
-    ok = len(nul) == 1
-    why = 'no test of the rest of the rule against NULLABLE'
+    # t6: the nullable-suffix test.  Canonical form: `if all(X[j] in self.NULLABLE for j in range(i + 1, len(X))): <add>` (a for/else with
+    # break, or a boolean helper with an early `return False`, reads the same after normalisation N15 / look-through P2); also accepted:
+    # a slice `all(s in self.NULLABLE for s in X[i + 1:])`.
+    quants = [c for c in f.body_nodes() if isinstance(c, ast.Call) and norm(c.func) in ('all', 'any') and len(c.args) == 1
+              and isinstance(c.args[0], (ast.GeneratorExp, ast.ListComp)) and '%s.NULLABLE' % sn in norm(c.args[0].elt)]
+    if len(quants) != 1:
+        raise AnalysisError('R-LALR-TABLE: compute_includes_lookback: cannot find the test of the rule\'s suffix against NULLABLE (found %d candidates)' % len(quants))
+    q = quants[0]
+    gen = q.args[0]
+    g0 = gen.generators[0]
+    outer = next((l for l in ancestors(q) if isinstance(l, ast.For) and isinstance(l.iter, ast.Call) and norm(l.iter.func) == 'range' and isinstance(l.target, ast.Name)), None)
+    if outer is None or len(gen.generators) != 1 or g0.ifs:
+        raise AnalysisError('R-LALR-TABLE: compute_includes_lookback: the suffix test is not inside the walk over the rule (for i in range(...))')
+    i_ = outer.target.id
+    el = gen.elt
+    neg = False
+    while isinstance(el, ast.UnaryOp) and isinstance(el.op, ast.Not):
+        el, neg = el.operand, not neg
+    ok = isinstance(el, ast.Compare) and len(el.ops) == 1 and isinstance(el.ops[0], (ast.In, ast.NotIn)) and norm(el.comparators[0]) == '%s.NULLABLE' % sn
+    why = 'the quantified test is %s' % norm(gen.elt)
     inc_add = None
     if ok:
-        c = nul[0]
-        inner = next((l for l in ancestors(c) if isinstance(l, ast.For)), None)
-        outer = next((l for l in ancestors(inner) if isinstance(l, ast.For)), None) if inner is not None else None
-        ok = inner is not None and outer is not None and isinstance(inner.iter, ast.Call) and norm(inner.iter.func) == 'range' and len(inner.iter.args) == 2 \
-            and isinstance(outer.iter, ast.Call) and norm(outer.iter.func) == 'range' and isinstance(outer.target, ast.Name) and isinstance(inner.target, ast.Name)
-        why = 'the suffix test is not a loop over range(i + 1, len(expansion)) inside the walk over the rule'
+        member_pos = isinstance(el.ops[0], ast.In) != neg          # True: "is nullable"
+        universal = norm(q.func) == 'all'
+        # the consumer: the test position the quantifier sits in
+        st_q = enclosing_stmt(q)
+        pol = True
+        p_ = parent(q)
+        while isinstance(p_, ast.UnaryOp) and isinstance(p_.op, ast.Not):
+            pol, p_ = not pol, parent(p_)
+        # all(nullable) == not any(not nullable)
+        says_all_nullable = (universal and member_pos and pol) or ((not universal) and (not member_pos) and (not pol))
+        ok = says_all_nullable and isinstance(st_q, ast.If)
+        why = 'the includes edge is added when %s%s(%s ...)' % ('' if pol else 'not ', norm(q.func), norm(gen.elt))
         if ok:
-            i_, j_ = outer.target.id, inner.target.id
-            lo, hi = inner.iter.args
-            lin_lo = linear(lo)
-            exp = norm(c.left)
-            ok = lin_lo is not None and lin_lo == linear(_pe('%s + 1' % i_)) and norm(hi) == norm(outer.iter.args[-1]) and exp.endswith('[%s]' % j_) \
-                and norm(hi) == 'len(%s)' % exp[:-len('[%s]' % j_)]
-            why = 'the suffix examined is range(%s, %s) of %s, expected every position after %s up to the end' % (norm(lo), norm(hi), exp, i_)
+            # the range
+            seq = None
+            if isinstance(g0.iter, ast.Call) and norm(g0.iter.func) == 'range' and len(g0.iter.args) == 2 and isinstance(g0.target, ast.Name):
+                lo, hi = g0.iter.args
+                j_ = g0.target.id
+                lft = norm(el.left)
+                ok = lft.endswith('[%s]' % j_)
+                seq = lft[:-len('[%s]' % j_)] if ok else None
+                ok = ok and linear(lo) is not None and linear(lo) == linear(_pe('%s + 1' % i_)) and norm(hi) == 'len(%s)' % seq
+                why = 'the suffix examined is %s[%s : %s], expected every position after %s up to the end' % (seq, norm(lo), norm(hi), i_)
+            elif isinstance(g0.iter, ast.Subscript) and isinstance(g0.iter.slice, ast.Slice) and g0.iter.slice.upper is None and g0.iter.slice.step is None \
+                    and g0.iter.slice.lower is not None and norm(el.left) == norm(g0.target):
+                seq = norm(g0.iter.value)
+                ok = linear(g0.iter.slice.lower) is not None and linear(g0.iter.slice.lower) == linear(_pe('%s + 1' % i_))
+                why = 'the suffix examined is %s, expected everything after position %s' % (norm(g0.iter), i_)
+            else:
+                raise AnalysisError('R-LALR-TABLE: compute_includes_lookback: the suffix is neither range(i + 1, len(X)) nor a slice X[i + 1:]')
             if ok:
-                # break on a non-nullable symbol, the includes edge in the loop's else
-                test_if = next((a for a in ancestors(c) if isinstance(a, ast.If)), None)
-                notin = isinstance(c.ops[0], ast.NotIn)
-                ok = test_if is not None and notin and any(isinstance(s_, ast.Break) for s_ in test_if.body) and bool(inner.orelse) \
-                    and any(isinstance(x, ast.Call) and isinstance(x.func, ast.Attribute) and x.func.attr in ('append', 'add') for s_ in inner.orelse for x in ast.walk(s_))
-                why = 'the includes edge is not added exactly when no symbol of the suffix is outside NULLABLE (break / else)'
-                if ok:
-                    inc_add = next(x for s_ in inner.orelse for x in ast.walk(s_) if isinstance(x, ast.Call) and isinstance(x.func, ast.Attribute)
-                                   and x.func.attr in ('append', 'add'))
+                # it is the rule being walked: the outer loop runs over the same expansion, up to its end
+                ok = norm(outer.iter.args[-1]) == 'len(%s)' % seq
+                why = 'the suffix is taken from %s but the walk runs to %s' % (seq, norm(outer.iter.args[-1]))
+            if ok:
+                adds_ = [x for s_ in st_q.body for x in ast.walk(s_) if isinstance(x, ast.Call) and isinstance(x.func, ast.Attribute) and x.func.attr in ('append', 'add')]
+                if len(adds_) != 1:
+                    raise AnalysisError('R-LALR-TABLE: compute_includes_lookback: what the suffix test guards is not one insertion')
+                inc_add = adds_[0]
     res.ob(site, 't6: (p\', B) includes (p, A) only if every symbol after B in the rule is nullable', ok)
     if not ok:
-        res.finding(f, nul[0] if nul else f.node, 'the `includes` relation changed (%s): lookaheads of the enclosing rule are propagated through a '
+        res.finding(f, q, 'the `includes` relation changed (%s): lookaheads of the enclosing rule are propagated through a '
                     'non-nullable suffix, or not propagated through a nullable one' % why, construct='t6:includes-suffix')
     # only non-terminal transitions; the pair is taken before the state advances; direction includes[nt2].add(nt)
     ok = False
@@ -501,12 +624,15 @@ def _digraph(repo: Repo, res: RuleResult):
             conj = [test] if not (isinstance(test, ast.BoolOp) and isinstance(test.op, ast.And)) else list(test.values)
             forms = set()
             for c in conj:
-                if isinstance(c, ast.Compare) and len(c.ops) == 1:
-                    l_, r_ = sub(c.left), sub(c.comparators[0])
-                    op = type(c.ops[0]).__name__
-                    if op == 'Gt':
-                        l_, r_, op = r_, l_, 'Lt'
-                    forms.add((l_, op, r_))
+                if isinstance(c, ast.Compare):
+                    # a chain a < b < c is the conjunction of its links
+                    operands = [c.left] + list(c.comparators)
+                    for (lft, op_, rgt) in zip(operands, c.ops, operands[1:]):
+                        l_, r_ = sub(lft), sub(rgt)
+                        op = type(op_).__name__
+                        if op == 'Gt':
+                            l_, r_, op = r_, l_, 'Lt'
+                        forms.add((l_, op, r_))
             okm = ('0', 'Lt', ny) in forms and (ny, 'Lt', nx) in forms and sub(asg.value) == ny
         every = path_vectors(body, [lambda n_: isinstance(n_, ast.Call) and norm(n_.func) == '%s[%s].update' % (F, x)]) == {(1,)}
         ok = len(rec) == 1 and len(upd) == 1 and every and okm and (not rec or body.index(rec[0]) < body.index(upd[0]))
